@@ -19,7 +19,7 @@ Require Import ZArith Bool Reals.
 From Flocq Require Import Core BinarySingleNaN.
 From Dasp Require Import Base.Res Base.Float Sample.Rint Sample.ConvSpec Sample.ConvFloatSpec
   Sample.ConvFloatTheorems Sample.ConvFloatExamples.
-From DaspGen Require Import ConvGen ConvFloatGen ConvFloatCorrect.
+From DaspGen Require Import FormatTable ConvGen ConvCorrect ConvFloatGen ConvFloatCorrect.
 Open Scope Z_scope.
 
 (* ================================ f32 ================================ *)
@@ -96,6 +96,14 @@ Theorem c02_roundtrip_f32 : forall (m m' : mode) (i : fmt) (z : Z), bits i <= 24
 Proof. exact roundtrip_f32. Qed.
 Print Assumptions c02_roundtrip_f32.
 
+(* ... and, value by value, for every integer whose conversion happened to be exact although its format is
+   wider than the mantissa (e.g. i32 3 * 2^24 -> f32) *)
+Theorem c02_roundtrip_f32_pointwise : forall (m m' : mode) (i : fmt) (z : Z) (f : F32.t), in_range i z ->
+  to_sample_f32_of_int m i z = Ok f -> B2R f = (IZR (amp i z) / fscale i)%R ->
+  to_sample_int_of_f32 m' i f = Ok z.
+Proof. exact roundtrip_f32_pointwise. Qed.
+Print Assumptions c02_roundtrip_f32_pointwise.
+
 (* ================================ f64 ================================ *)
 
 (* integer -> f64, all 12 formats, every in-range value: the result is the finite float
@@ -169,6 +177,22 @@ Theorem c02_roundtrip_f64 : forall (m m' : mode) (i : fmt) (z : Z), bits i <= 53
   bind (to_sample_f64_of_int m i z) (to_sample_int_of_f64 m' i) = Ok z.
 Proof. exact roundtrip_f64. Qed.
 Print Assumptions c02_roundtrip_f64.
+
+(* ... and, value by value, for every integer whose conversion happened to be exact although its format is
+   wider than the mantissa (e.g. i32 3 * 2^24 -> f32) *)
+Theorem c02_roundtrip_f64_pointwise : forall (m m' : mode) (i : fmt) (z : Z) (f : F64.t), in_range i z ->
+  to_sample_f64_of_int m i z = Ok f -> B2R f = (IZR (amp i z) / fscale i)%R ->
+  to_sample_int_of_f64 m' i f = Ok z.
+Proof. exact roundtrip_f64_pointwise. Qed.
+Print Assumptions c02_roundtrip_f64_pointwise.
+
+(* [in_range], [fmin], [equilibrium], [signed] above are the specification's; they are the formats as the
+   source defines them (types.rs MIN/MAX of I24/U24/I48/U48, the primitive ranges, lib.rs EQUILIBRIUM/Signed) *)
+Theorem c02_format_table : forall f : fmt,
+  src_min f = fmin f /\ src_max f = fmax f /\ src_equilibrium f = equilibrium f /\ src_signed f = signed f /\
+  tmin (src_rep f) <= fmin f /\ fmax f <= tmax (src_rep f).
+Proof. exact format_table_ok. Qed.
+Print Assumptions c02_format_table.
 
 (* ================================ f32 <-> f64 ================================ *)
 
